@@ -57,6 +57,14 @@ def implements(numpy_function):
     return decorator
 
 
+def _wrap_out_result(res, units):
+    # class of a handler's return value when ``out`` is given: like every other
+    # code path, a zero-dimensional result is a unyt_quantity
+    res = np.asarray(res)
+    cls = unyt_quantity if res.ndim == 0 else unyt_array
+    return cls(res, units, bypass_validation=True)
+
+
 @implements(np.array2string)
 def array2string(a, *args, **kwargs):
     return (
@@ -72,7 +80,7 @@ def product_helper(a, b, out, func):
     res = func._implementation(np.asarray(a), np.asarray(b), out=np.asarray(out))
     if getattr(out, "units", None) is not None:
         out.units = prod_units
-    return unyt_array(res, prod_units, bypass_validation=True)
+    return _wrap_out_result(res, prod_units)
 
 
 @implements(np.dot)
@@ -480,7 +488,7 @@ def around(a, decimals=0, out=None):
     )
     if getattr(out, "units", None) is not None:
         out.units = ret_units
-    return unyt_array(res, ret_units, bypass_validation=True)
+    return _wrap_out_result(res, ret_units)
 
 
 @implements(np.block)
@@ -951,7 +959,7 @@ def choose(a, choices, out=None, *args, **kwargs):
     )
     if getattr(out, "units", None) is not None:
         out.units = retu
-    return unyt_array(res, retu, bypass_validation=True)
+    return _wrap_out_result(res, retu)
 
 
 @implements(np.fill_diagonal)
@@ -1064,7 +1072,7 @@ def clip_impl(a, a_min, a_max, out=None, *args, **kwargs):
     )
     if getattr(out, "units", None) is not None:
         out.units = a.units
-    return unyt_array(res, a.units, bypass_validation=True)
+    return _wrap_out_result(res, a.units)
 
 
 if NUMPY_VERSION >= Version("2.1.0.dev0"):
